@@ -355,9 +355,10 @@ theorem asIs_named_store_false_positive :
     ∧ reported toyH Cfg.repaired toyStores (o.toRow toyH) = false := by
   decide
 
-/-- Negation witness 4 (a defect of the SQL part store that the validator inherits, not repaired by
-the validator patch): an intact empty object held by a store that writes nothing for empty content
-is reported, because `GetPart` answers "part not found". -/
+/-- Why `Faithful` is a hypothesis: an intact empty object held by a store that keeps nothing for
+empty content is reported even by the repaired validator, because `GetPart` answers "part not
+found". (The SQL part store was such a store until /repo commit 6ff38ea; the harness observes on
+every case whether an untouched empty part can be read back.) -/
 theorem lossy_store_empty_part_false_positive :
     let ss : Stores := { dflt := sqlStore fun i => if i = 3 then some [] else none, named := fun _ => none }
     let o : AObj := ⟨0, .single, [⟨3, none, []⟩]⟩
